@@ -214,7 +214,7 @@ def verify_many(names, timeout_ms=20000, repo_root=None, procs=None):
     # at most ~ncpu/2 obligation provers at a time over ALL tasks (each may start a small solver portfolio): without
     # this cap a check with many functions oversubscribes the machine and obligations time out for no reason
     global _SEM
-    _SEM = ctx.BoundedSemaphore(max(4, ncpu // 2))
+    _SEM = ctx.BoundedSemaphore(int(os.environ.get('SEDVC_MAX_SOLVERS') or max(4, ncpu // 2)))       # (lower it when several checks share the machine)
     # one fresh process per task: a verification never depends on what its worker did before
     with ctx.Pool(procs, maxtasksperchild=1) as pool:
         return pool.map(_worker, tasks, chunksize=1)
